@@ -1,6 +1,7 @@
 import Kaira.Proto
 import Kaira.Codes
 import Kaira.Decoders
+import Kaira.BM
 namespace Kaira.Verbs
 open Kaira Kaira.Proto Kaira.Codes Kaira.Decoders
 
@@ -51,6 +52,21 @@ def cfec (cs : CodeTable) (toks : List String) : Option String :=
   | ["haminv", c, info, bits] => do
     let c ← findCode cs c; let bits ← bits? bits; let info ← natList? info
     some (out (blockwise c.n c.k (hammingInverse c.HT info) bits))
+  | ["bmdec", c, pp, m, t, bits] => do
+    -- BerlekampMasseyDecoder.forward: blockwise, corrected word then message extraction
+    let c ← findCode cs c; let bits ← bits? bits
+    let pp ← pp.toNat?; let m ← m.toNat?; let t ← t.toNat?
+    some (out (blockwise c.n c.k (fun r => invEncode c.R (Kaira.BM.correct pp m t c.n r)) bits))
+  | ["bmint", pp, m, t, n, bits] => do
+    -- internals on one word: syndromes, error locator, error positions
+    let bits ← bits? bits
+    let pp ← pp.toNat?; let m ← m.toNat?; let t ← t.toNat?; let n ← n.toNat?
+    let r := maskOf bits
+    let S := Kaira.BM.synd pp t n r
+    if S.all (· == 0) then some s!"S {showNats S} clean"
+    else
+      let sg := Kaira.BM.bm pp m t S
+      some s!"S {showNats S} L {showNats sg} E {showNats (Kaira.BM.locate pp n sg)}"
   | ["synz", c, bits] => do
     let c ← findCode cs c; let bits ← bits? bits
     match blockwise c.n c.r (syndrome c.HT) bits with
